@@ -1,5 +1,263 @@
-import CachedModel
+/-
+  C18  No deadlock: locks are always taken in one global order and no thread holds a lock while blocking on
+       a queue, so no cycle of lock or queue waits ever forms.
+
+  All statements are about `CachedModel/Locks.lean`: the lock classes and their ranks, the table `programs`
+  of every API call and background loop body of the crate (cross-checked at run time against the lock-event
+  log of the real crate), and the abstract system `Sys` of ANY number of threads, each with the classes it
+  holds and the rest of its program. The semantics `stepThread`, the well-formedness `WF`, and the
+  specification `BlockedSpec` of blocking are in `CachedProofs/Lemmas/Locks.lean`.
+
+  Quantifiers: every system `S` (any number of threads, any queue lengths, any positive capacities, any
+  programs that pass the static check `Thread.ok` — not only those of the table), every predicate `blocked`
+  (which threads the lock / channel implementation keeps waiting: any fairness, writer preference, spurious
+  choice of whom to wake) that satisfies `BlockedSpec`, every schedule.
+
+  Assumptions, all in `WF`: `Thread.ok` for every thread (checked for the crate's programs by `decide`, kept by
+  every step: `C18_wf_preserved`), positive capacities, and `has_consumer` (a blocking send finds the consumer
+  of its channel inside its loop; when the consumer is gone the channel is disconnected and `send` fails
+  instead of blocking). `has_consumer` is an environment assumption about the consumer loops being reloaded
+  (`todo = []` is "between programs"), it is not something `stepThread` can preserve.
+
+  `C18_no_deadlock` is the global statement (some thread can move, or the system is idle); `C18_no_wait_cycle` is
+  the local one (no set of threads waiting on one another, also while other threads run) and needs neither
+  `has_consumer` nor anything about threads outside the set.
+
+  One condition had to be ADDED for `C18_wf_preserved`: `Balanced` (the rest of every program releases all it
+  holds and acquires, `heldAfter held todo = []`; `programsOk` checks it for whole programs). `Thread.ok` alone
+  is not inductive, see `C18_ok_alone_not_inductive`. `C18_no_deadlock` does not need it.
+-/
+import CachedProofs.Lemmas.Locks
 
 namespace Cached
+namespace Locks
 
+/-- **No deadlock.** In a well-formed system, whatever the implementation's choice of whom to keep waiting:
+    either some unfinished thread can move, or every unfinished thread is a channel consumer waiting on its own
+    EMPTY queue — the system is idle, nobody is stuck holding or wanting anything. In particular no cycle of
+    lock or queue waits exists. -/
+theorem C18_no_deadlock {S : Sys} {blocked : Nat → Prop} (wf : WF S) (bs : BlockedSpec S blocked) :
+    (∃ (i : Nat) (t : Thread), S.threads[i]? = some t ∧ t.todo ≠ [] ∧ ¬ blocked i) ∨
+    (∀ (i : Nat) (t : Thread), S.threads[i]? = some t → t.todo ≠ [] →
+      ∃ q rest, t.todo = .recv q :: rest ∧ t.consumerOf = some q ∧ S.len q = 0) := by
+  apply Classical.byContradiction
+  intro hcon
+  have hno : ¬ ∃ i t, S.threads[i]? = some t ∧ t.todo ≠ [] ∧ ¬ blocked i := fun h => hcon (Or.inl h)
+  have hall : ∀ i t, S.threads[i]? = some t → t.todo ≠ [] → blocked i := by
+    intro i t ht hne
+    apply Classical.byContradiction
+    intro hb
+    exact hno ⟨i, t, ht, hne, hb⟩
+  refine hcon (Or.inr ?_)
+  intro i t ht hne
+  obtain ⟨q, rest, h1, h2, h3, _⟩ := all_blocked_idle wf bs hall i t ht hne
+  exact ⟨q, rest, h1, h2, h3⟩
+
+/-- **No cycle of lock or queue waits ever forms**, also among a PART of the threads while the others run.
+    Let `P` be any set of threads that wait on one another (`WaitClosed`): each member is kept waiting, a member
+    waiting for a lock of class `c` waits for a member holding one, a member waiting for room in `q` waits for a
+    member that is the consumer of `q`. (Any wait cycle `i₀ → i₁ → … → i₀` is such a set; so is any set of
+    threads stuck for ever.) Then no member waits for a lock or for room in a queue and no member holds a lock:
+    every member is a consumer at `recv` on its own EMPTY queue. Needs only the discipline and positive
+    capacities, not `has_consumer`. -/
+theorem C18_no_wait_cycle {S : Sys} {blocked : Nat → Prop} {P : Nat → Prop}
+    (hok : ∀ t ∈ S.threads, t.ok = true) (hcap : ∀ q, 0 < S.cap q)
+    (bs : BlockedSpec S blocked) (wc : WaitClosed S blocked P) :
+    ∀ (i : Nat) (t : Thread), P i → S.threads[i]? = some t →
+      ∃ q rest, t.todo = .recv q :: rest ∧ t.consumerOf = some q ∧ S.len q = 0 ∧ t.held = [] :=
+  waitClosed_idle hok hcap bs wc
+
+/-- Instance of `C18_no_wait_cycle` with a two-element set: the classical deadly embrace — two threads, each kept
+    waiting for a lock class the other holds — is impossible, whatever the rest of the system does. -/
+theorem C18_no_embrace {S : Sys} {blocked : Nat → Prop} (wf : WF S) (bs : BlockedSpec S blocked)
+    {i j : Nat} {t u : Thread} {c d : Cls} {rt ru : List Op}
+    (ht : S.threads[i]? = some t) (hu : S.threads[j]? = some u)
+    (hti : t.todo = .acq c :: rt) (huj : u.todo = .acq d :: ru)
+    (hbi : blocked i) (hbj : blocked j) (hc : c ∈ u.held) (hd : d ∈ t.held) : False := by
+  have wc : WaitClosed S blocked (fun k => k = i ∨ k = j) := by
+    refine ⟨?_, ?_, ?_⟩
+    · rintro k (rfl | rfl) <;> assumption
+    · rintro k x e r (rfl | rfl) hx hxt
+      · rw [ht] at hx; cases hx
+        rw [hti] at hxt; cases hxt
+        exact ⟨j, u, Or.inr rfl, hu, hc⟩
+      · rw [hu] at hx; cases hx
+        rw [huj] at hxt; cases hxt
+        exact ⟨i, t, Or.inl rfl, ht, hd⟩
+    · rintro k x q r (rfl | rfl) hx hxt
+      · rw [ht] at hx; cases hx
+        rw [hti] at hxt; cases hxt
+      · rw [hu] at hx; cases hx
+        rw [huj] at hxt; cases hxt
+  obtain ⟨q, rest, h, _⟩ := C18_no_wait_cycle wf.ok wf.cap_pos bs wc i t (Or.inl rfl) ht
+  rw [hti] at h
+  cases h
+
+/-- **The static check of each program suffices.** A step of any thread keeps `Thread.ok` (and `Balanced`, and
+    the capacities) and touches no other thread: `okFrom held (op :: rest)` gives `okFrom (held after op) rest`. -/
+theorem C18_wf_preserved {S S' : Sys} {i : Nat} (wf : WF S) (bal : Balanced S) (h : stepThread S i = some S') :
+    (∀ t ∈ S'.threads, t.ok = true) ∧ Balanced S' ∧ (∀ q, 0 < S'.cap q) ∧
+    (∀ j, j ≠ i → S'.threads[j]? = S.threads[j]?) := by
+  obtain ⟨h1, h2⟩ := stepThread_ok wf.ok bal h
+  obtain ⟨_, hother, hcap, _⟩ := stepThread_todo h
+  exact ⟨h1, h2, fun q => by rw [hcap]; exact wf.cap_pos q, hother⟩
+
+/-- Why `Balanced` is there: `Thread.ok` alone is not preserved (its clause "finished threads hold nothing"
+    looks only at the present). This thread is `ok`, it acquires and never releases. -/
+theorem C18_ok_alone_not_inductive :
+    let S : Sys := { threads := [{ held := [], todo := [.acq .wu], consumerOf := none }], len := fun _ => 0, cap := fun _ => 1 }
+    (∀ t ∈ S.threads, t.ok = true) ∧
+    ∃ S', stepThread S 0 = some S' ∧ ¬ (∀ t ∈ S'.threads, t.ok = true) := by
+  refine ⟨by decide, _, rfl, ?_⟩
+  intro h
+  exact absurd (h _ (List.mem_singleton.mpr rfl)) (by decide)
+
+/-- **The crate's programs pass the check**: every program of the table keeps the rank order, holds nothing at a
+    blocking channel operation and ends holding nothing; consumers never do a blocking send and only the
+    consumer of a channel receives from it. -/
+theorem C18_programs_ok : programsOk = true ∧ consumersOk = true := by decide
+
+/-- In the crate a consumer loop body is `recv q` followed by lock operations only: consumers produce nothing
+    (not even with `trySend`), so threads idle at `recv` on empty queues (the second case of `C18_no_deadlock`)
+    are not waiting for one another either. -/
+theorem C18_consumers_only_consume :
+    programs.all (fun p => match p.2.1 with
+      | some q => decide (p.2.2.head? = some (.recv q)) &&
+          p.2.2.tail.all (fun op => match op with | .acq _ => true | .rel _ => true | _ => false)
+      | none => true) = true := by decide
+
+/-- Every program of the table, started holding nothing by a thread with the table's consumer role, is a
+    `Thread.ok` and balanced thread — the hypotheses `WF.ok` and `Balanced` for the real crate. -/
+theorem C18_program_thread_ok :
+    ∀ p ∈ programs, ({ held := [], todo := p.2.2, consumerOf := p.2.1 } : Thread).ok = true ∧
+      heldAfter [] p.2.2 = [] := by
+  have h : programs.all (fun p => ({ held := [], todo := p.2.2, consumerOf := p.2.1 } : Thread).ok &&
+      (heldAfter [] p.2.2).isEmpty) = true := by decide
+  intro p hp
+  have := List.all_eq_true.mp h p hp
+  simp only [Bool.and_eq_true, List.isEmpty_iff] at this
+  exact this
+
+/-- The rank table is an order on classes: no two classes share a rank (and all ranks are below 8). -/
+theorem C18_rank_table : (∀ a b : Cls, a.rank = b.rank → a = b) ∧ ∀ c : Cls, c.rank < 8 :=
+  ⟨Cls.rank_injective, Cls.rank_lt_8⟩
+
+/-- **Every program ends.** One step of thread `i` removes exactly the first operation of its `todo` and leaves
+    every other thread alone; a thread with something to do can always be stepped. -/
+theorem C18_step_decreases {S S' : Sys} {i : Nat} (h : stepThread S i = some S') :
+    (∃ t t', S.threads[i]? = some t ∧ S'.threads[i]? = some t' ∧ t'.todo.length + 1 = t.todo.length) ∧
+    (∀ j, j ≠ i → S'.threads[j]? = S.threads[j]?) := by
+  obtain ⟨⟨t, t', ht, ht', hne, htail, _⟩, hother, _, _⟩ := stepThread_todo h
+  refine ⟨⟨t, t', ht, ht', ?_⟩, hother⟩
+  rw [htail]
+  cases hl : t.todo with
+  | nil => exact absurd hl hne
+  | cons op r => simp
+
+/-- Under ANY schedule (any interleaving with the other threads), after thread `i` was scheduled `k` times it has
+    exactly the last `todo.length - k` operations left, `k` never exceeds `todo.length`, and after exactly
+    `todo.length` of its own steps it is finished; until then it can be stepped. So a thread that is not blocked
+    for ever finishes its program — programs are finite lists, there are no loops inside a program. -/
+theorem C18_terminates {S S' : Sys} {sched : List Nat} {i : Nat} {t : Thread}
+    (hrun : run S sched = some S') (ht : S.threads[i]? = some t) :
+    ∃ t', S'.threads[i]? = some t' ∧ t'.todo = t.todo.drop (sched.count i) ∧
+      sched.count i ≤ t.todo.length ∧ t'.todo.length + sched.count i = t.todo.length ∧
+      (sched.count i = t.todo.length → t'.todo = []) ∧
+      (sched.count i < t.todo.length → ∃ S'', stepThread S' i = some S'') := by
+  obtain ⟨t', ht', hdrop, hle, _⟩ := run_todo i sched S S' t hrun ht
+  have hlen : t'.todo.length + sched.count i = t.todo.length := by
+    rw [hdrop, List.length_drop]; omega
+  refine ⟨t', ht', hdrop, hle, hlen, ?_, ?_⟩
+  · intro heq
+    apply List.eq_nil_of_length_eq_zero
+    omega
+  · intro hlt
+    apply stepThread_isSome ht'
+    intro hnil
+    rw [hnil] at hlen
+    simp at hlen
+    omega
+
+/-! ## Non-vacuity (`exampleSys`, `badSys` are defined in `Lemmas/Locks.lean`) -/
+
+open Cls Op Chan
+
+/-- (a) the hypotheses of `C18_no_deadlock` and `C18_wf_preserved` are met by `exampleSys`, with client and worker
+    blocked by the sweeper -/
+example : WF exampleSys ∧ Balanced exampleSys ∧ BlockedSpec exampleSys (fun i => i = 0 ∨ i = 1) := by
+  refine ⟨⟨by decide, ?_, ?_⟩, by unfold Balanced; decide, ⟨?_, ?_, ?_, ?_, ?_, ?_⟩⟩
+  · intro q; cases q <;> decide
+  · intro i t q rest ht htodo
+    match i with
+    | 0 | 1 | 2 => simp [exampleSys] at ht; subst ht; simp at htodo
+    | n + 3 => simp [exampleSys] at ht
+  · intro i t c rest ht htodo hb
+    rcases hb with rfl | rfl
+    · refine ⟨2, _, by decide, rfl, ?_⟩
+      simp [exampleSys] at ht; subst ht; simp at htodo; rw [← htodo.1]; decide
+    · refine ⟨2, _, by decide, rfl, ?_⟩
+      simp [exampleSys] at ht; subst ht; simp at htodo; rw [← htodo.1]; decide
+  · intro i t q rest ht htodo hb
+    rcases hb with rfl | rfl <;> (simp [exampleSys] at ht; subst ht; simp at htodo)
+  · intro i t q rest ht htodo hb
+    rcases hb with rfl | rfl <;> (simp [exampleSys] at ht; subst ht; simp at htodo)
+  · intro i t c rest ht htodo hb
+    rcases hb with rfl | rfl <;> (simp [exampleSys] at ht; subst ht; simp at htodo)
+  · intro i t q rest ht htodo hb
+    rcases hb with rfl | rfl <;> (simp [exampleSys] at ht; subst ht; simp at htodo)
+  · intro i t ht htodo hb
+    rcases hb with rfl | rfl <;> (simp [exampleSys] at ht; subst ht; simp at htodo)
+
+/-- (a') the same moment a little later: the client is blocked at `send cmd` on a FULL command queue, the worker
+    (the consumer of `cmd`) is inside its loop body — `has_consumer` is met non-vacuously. -/
+example : WF { exampleSys with
+    threads := exampleSys.threads.set 0 { held := [], todo := [send cmd], consumerOf := none }
+    len := fun _ => 4 } := by
+  refine ⟨by decide, ?_, ?_⟩
+  · intro q; cases q <;> decide
+  · intro i t q rest ht htodo
+    match i with
+    | 0 =>
+      simp [exampleSys] at ht; subst ht; simp at htodo
+      refine ⟨1, _, rfl, ?_, by simp⟩
+      rw [← htodo.1]
+    | 1 | 2 => simp [exampleSys] at ht; subst ht; simp at htodo
+    | n + 3 => simp [exampleSys] at ht
+
+/-- (b) the classical deadlock `badSys` is REJECTED by the check: the thread that holds `wu` and wants `kwShard`
+    violates the rank order, the other one (the crate's `UpdateWeight` order) is fine -/
+example : badSys.threads.map Thread.ok = [false, true] := by decide
+
+/-- ... and the check is needed: `badSys` meets every other hypothesis (`BlockedSpec` with both threads blocked,
+    positive capacities; `has_consumer` is vacuous, nobody sends), and the conclusion of `C18_no_deadlock` fails for it. -/
+example : BlockedSpec badSys (fun _ => True) ∧ (∀ q, 0 < badSys.cap q) ∧
+    ¬ ((∃ (i : Nat) (t : Thread), badSys.threads[i]? = some t ∧ t.todo ≠ [] ∧ ¬ (fun _ => True) i) ∨
+       (∀ (i : Nat) (t : Thread), badSys.threads[i]? = some t → t.todo ≠ [] →
+         ∃ q rest, t.todo = .recv q :: rest ∧ t.consumerOf = some q ∧ badSys.len q = 0)) := by
+  refine ⟨⟨?_, ?_, ?_, ?_, ?_, ?_⟩, fun _ => Nat.one_pos, ?_⟩
+  · intro i t c rest ht htodo _
+    match i with
+    | 0 =>
+      refine ⟨1, _, by decide, rfl, ?_⟩
+      simp [badSys] at ht; subst ht; simp at htodo; rw [← htodo.1]; decide
+    | 1 =>
+      refine ⟨0, _, by decide, rfl, ?_⟩
+      simp [badSys] at ht; subst ht; simp at htodo; rw [← htodo.1]; decide
+    | n + 2 => simp [badSys] at ht
+  all_goals first
+    | (intro i t q rest ht htodo
+       match i with
+       | 0 | 1 => simp [badSys] at ht; subst ht; simp at htodo
+       | n + 2 => simp [badSys] at ht)
+    | skip
+  · intro i t ht htodo
+    match i with
+    | 0 | 1 => simp [badSys] at ht; subst ht; simp at htodo
+    | n + 2 => simp [badSys] at ht
+  · rintro (⟨i, t, _, _, hb⟩ | h)
+    · exact hb trivial
+    · obtain ⟨q, rest, hq, _⟩ := h 0 _ rfl (by simp)
+      simp at hq
+
+end Locks
 end Cached
